@@ -2072,6 +2072,10 @@ def _forget_function_covers_slots(ck, R, cls, slots, dec):
     fa = FA(ck, m)
     state = {x for x in (cm.map, cm.queue, cm.refs, cm.counter, cm.budget) if x}
     for slot in sorted(slots):
+        if slot == cm.queue:
+            # the recency queue orders resident keys (a membership test on it in a helper of the queries is bookkeeping, not an
+            # answer); that it lists resident keys only, and is swept with them, is C06's subject
+            continue
         events = []     # (key expression, site)
         for n in A.walk_body(m.node):
             if isinstance(n, ast.Call):
